@@ -220,6 +220,8 @@ func emit(l *logger.Logger, variant int, level slog.Level, msg string, args []an
 			l.Info(msg, args...)
 		case logger.LevelWarn:
 			l.Warn(msg, args...)
+		case logger.LevelFatal: // Fatal() itself ends the process (observed in a child process by extras X06)
+			l.Log(ctx, level, msg, args...)
 		default:
 			l.Error(msg, args...)
 		}
@@ -231,6 +233,8 @@ func emit(l *logger.Logger, variant int, level slog.Level, msg string, args []an
 			l.Infof("%s", msg)
 		case logger.LevelWarn:
 			l.Warnf("%s", msg)
+		case logger.LevelFatal:
+			l.Logf(ctx, level, "%s", msg)
 		default:
 			l.Errorf("%s", msg)
 		}
@@ -355,10 +359,15 @@ func main() {
 	for _, kind := range []string{"nano", "text", "json"} {
 		w.Put(hammer(kind, *hammerN, rng))
 	}
-	for run := 0; run < *runs; run++ {
+	// the last two runs are short ones at thresholds at and above LevelFatal (the usual way to silence a logger)
+	for run := 0; run < *runs+2; run++ {
 		for kindIdx, kind := range []string{"nano", "text", "json"} {
 			// every threshold occurs once per two runs (6 run x handler combinations), rotated by the seed
 			threshold := []slog.Level{-4, logger.LevelWarn, logger.LevelDebug, -8, logger.LevelInfo, logger.LevelError}[(run*3+kindIdx+int(vio.Seed()))%6]
+			short := run >= *runs
+			if short {
+				threshold = []slog.Level{logger.LevelFatal, 17, 20, 100, 1 << 20, 24}[((run-*runs)*3+kindIdx+int(vio.Seed()))%6]
+			}
 			d := &dest{log: evlog.New(), kind: kind, dwellNs: int64(20+rng.Intn(200)) * 1000, rng: rand.New(rand.NewSource(rng.Int63()))}
 			if run%2 == 1 {
 				d.failEvery = 3 // some Write calls report an error
@@ -367,6 +376,9 @@ func main() {
 			nrecRun := *nrec
 			if d.fast {
 				nrecRun = *nrec * 3
+			}
+			if short {
+				nrecRun = 40
 			}
 			root := logger.New(mkHandler(kind, d, threshold))
 			// loggers derived before the run
@@ -451,9 +463,6 @@ func main() {
 						id := int(nextID)
 						idMu.Unlock()
 						level := levels[r.Intn(len(levels))]
-						if level == logger.LevelFatal {
-							level = logger.LevelError
-						}
 						size := []int{0, 10, 100, 900, 1100, 5000, 17000, 40000, 66000}[r.Intn(9)]
 						if r.Intn(4) > 0 && size > 1100 {
 							size = 100
